@@ -200,6 +200,13 @@ def run_case(col, pp, cfg, case):
             verdict = 'accept'
             if container_solvent and x[-1] > 1 - 1e-6:
                 verdict = 'refuse' if x[-1] > 1 + 1e-6 else 'dontcare'
+            if container_solvent and which == 'cq' and n > 1:
+                # over-determined with a container as solvent: its effective molar mass and density are formed from
+                # moles (in mol) and volume (in mL) after the documented output rounding to internal precision, so for a
+                # small container (6.9 umol -> 0.0000068669 mol) they are good to grain / moles only, while the
+                # consistency test asks for 1e-6: consistent values may then legitimately be refused
+                if cfg.grain / ref.size(cbase, 'mol') + cfg.grain / (ref.size(cbase, 'L') * 1000) > 1e-7:
+                    verdict = 'dontcare'
         elif any(xi < 0 and abs(r) > 1e-7 for xi, r in zip(x, rel)):
             verdict = 'refuse'
         elif info['resid'] > 1e-3:
